@@ -4,7 +4,7 @@ func init() {
 	register(&PropSpec{
 		ID:          "C03",
 		Level:       "other",
-		Decided:     "never panics explicitly (R9: every panic statement / always-panicking helper in the three codecs is an obligation); never loops without consuming input (R2: no stutter path in any step function or dispatcher iteration); truncated input is an error at every entry point that knows the end (R8: one-shot entry points and decoders pass through the end-of-input check, the check itself tests the open-state stack).",
+		Decided:     "never allocates on the strength of an unbacked length (R13: no remaining-length value read from the wire reaches an allocation size unbounded - the parsers collect incrementally); never panics explicitly (R9: every panic statement / always-panicking helper in the three codecs is an obligation); never loops without consuming input (R2: no stutter path in any step function or dispatcher iteration); truncated input is an error at every entry point that knows the end (R8: one-shot entry points and decoders pass through the end-of-input check, the check itself tests the open-state stack).",
 		NotDecided:  "runtime panics from arithmetic the analysis does not follow, livelock between two states (R2 proves absence of stutter, not termination), time/memory proportionality.",
 		Assumptions: []string{"the parser only ever stores parser-state enum values that its dispatchers handle (fall-out of a switch over a state enum that leads straight to a return is not treated as an input-reachable path)"},
 		TrustedBase: baseTrusted,
@@ -12,6 +12,7 @@ func init() {
 			{"R2", R2("json", "cborl", "ubjson")},
 			{"R9", R9("json", "cborl", "ubjson")},
 			{"R8", R8("json", "cborl", "ubjson")},
+			{"R13", R13("parsers")},
 		},
 		LevelText: "Structural necessary conditions decided on every SSA path of the ~55 step functions, 3 dispatchers, 12 entry points and all panic sites of the three codecs. Each clause is necessary (breaking it makes some byte sequence hang, crash or be accepted when truncated); together they are not sufficient for the whole property.",
 		Technique: "stutter-freedom path analysis over the parser step families (consume / state-effect / delegate / error on every path, must-state summaries), panic-site enumeration with mechanical exceptions, must-pass-through for end-of-input",
@@ -58,9 +59,42 @@ func init() {
 			{"R6", R6()},
 			{"R7", R7},
 			{"R8", R8("json", "cborl", "ubjson")},
+			{"R15", R15},
 		},
 		LevelText: "Structural necessary conditions for 'idle depth after every complete document', decided on all paths of the event methods and container handlers. State leaking from one document to the next only shows on a later, differently shaped document - a property of histories; the delta/completion-vector argument covers all histories by induction over a well-formed stream.",
 		Technique: "stack-delta path analysis with interprocedural summaries (encoders: contract delta per event; ubjson parser: completion vectors per container handler, sibling agreement), push/pop reachability",
 		DesignRef: "DESIGN.md section 2 R6, R7, R15; section 3 C17",
+	})
+	register(&PropSpec{
+		ID:    "C14",
+		Level: "other",
+		Decided: "an announced container length is not a licence to allocate: no length taken from OnArrayStart/OnObjectStart reaches make/reflect.MakeSlice/MakeMapWithSize/Grow unbounded (R13); a map target with non-string keys is refused, never reinterpreted (R14a); no store into a map nobody made (R14b); explicit panics in gotype are obligations (R9); Reset re-initialises every stack and buffer of the unfold context on every path (R15).",
+		NotDecided: "pops on an empty generated stack on arbitrary mismatching event sequences (needs the product of ~60 state types with all event orders); 'never writes outside the target' beyond table agreement; proportionality of allocation in general.",
+		Assumptions: []string{"length values are followed through registers, conversions, arithmetic, phis and static calls; a length parked in a struct field and used later is not followed (none today)"},
+		TrustedBase: baseTrusted,
+		Rules: []RuleRun{
+			{"R13", R13("gotype")},
+			{"R14", R14},
+			{"R15", R15},
+			{"R9", R9("gotype")},
+		},
+		LevelText: "Structural necessary conditions decided over all start-event implementations (taint to allocation sinks), all map selector arms, all map store sites and the Reset path. The interesting inputs are the ones fixtures avoid (untrusted length fields, mismatching targets, abandoned documents); the rules cover every such input because they do not enumerate inputs.",
+		Technique: "SSA taint from announced lengths to allocation sinks with constant-bound sanitiser; AST sibling rule for map-key checks; dominance rule for nil-map allocation; path rule for Reset completeness; panic-site enumeration",
+		DesignRef: "DESIGN.md section 2 R13, R14, R15, R9; section 3 C14",
+	})
+	register(&PropSpec{
+		ID:    "C11",
+		Level: "other",
+		Decided: "the last sentence of the property only - a type that cannot be handled is refused with an error when folding or when the target is set, not by a crash: explicit panics / always-panicking helpers in gotype are obligations (R9); map types with non-string keys are refused (R14a); the type compilers must mark a type in progress before descending (R14c, self-referential types).",
+		NotDecided: "the round trip itself (deep equality of folded-then-unfolded values, directly or through a codec) is value- and program-level and needs execution; field-name agreement between fold and unfold side is checked by reading only.",
+		Assumptions: []string{},
+		TrustedBase: baseTrusted,
+		Rules: []RuleRun{
+			{"R9", R9("gotype")},
+			{"R14", R14},
+		},
+		LevelText: "Only the refusal clause is decided (structural: panic sites, key-kind checks, recursion guard in the compiler cycles). The value-level round trip is not a static question and is not claimed.",
+		Technique: "panic-site enumeration with mechanical exceptions; AST sibling rule; call-graph SCC + dominance rule for the memoisation-before-descent requirement",
+		DesignRef: "DESIGN.md section 2 R9, R14; section 3 C11",
 	})
 }
